@@ -8,6 +8,7 @@ inside string constants and comments; (c) audit-hook canary - nothing is exec'd 
 opened while the generated functions run."""
 from __future__ import annotations
 
+import copy
 import dataclasses
 import itertools
 import keyword
@@ -232,7 +233,9 @@ def run_model_case(ctx, rng, idx):
 
 
 def run_typeddict_case(ctx, rng, idx):
-    pool = [*keyword.kwlist, *FIELD_IDS[:60]]     # "any field_id must be a valid python identifier" (tutorial): other keys are refused by design
+    # "any field_id must be a valid python identifier" (tutorial): other keys are refused by design. The non-ASCII ones include
+    # identifiers that are NOT NFKC-normalised ('µ' U+00B5, 'ﬁx'): the compiler normalises the names of generated source (defect #79)
+    pool = [*keyword.kwlist, *FIELD_IDS[:60], "é", "имя", "名前", "ﬁeld", "ℌello", "µ", "ª", "ﬁx", "ｆｕｌｌ", "Å"]
     keys = [k for k in pick(rng, pool, USED["keys"], rng.randint(1, 4)) if isinstance(k, str)]
     keys = [k for k in dict.fromkeys(keys) if not k.startswith("_")]     # private keys are skipped at dumping by default (documented)
     if not keys:
@@ -561,7 +564,84 @@ def _witnesses(ctx):
         ctx.violation(f"generation-failed:converter:{type(cause).__name__ if cause is not None else type(out.exc).__name__}:class-name:keyword", f"destination class named 'import': {out!r:.200}", {})
 
 
-DIRECTED = {"keyword-keys-and-generated-names": _witnesses}
+def _unnormalised_identifiers(ctx):
+    """Legal identifiers whose NFKC form is another string, as keys of functional TypedDicts: the generated source is normalised by
+    the compiler, the keys handed to the TypedDict and to the generated globals must not be (defect #79)."""
+    for keys in (["µ"], ["ﬁx", "b"], ["µ", "from", "x"], ["ｆｕｌｌ", "ª", "Å"]):
+        TD, TS = (typing.TypedDict(f"TD{next(_n)}", {k: int for k in keys}) for _ in range(2))
+        value = {k: i for i, k in enumerate(keys)}
+        r = Retort()
+        outs = {"load": attempt(r.load, dict(value), TD), "dump": attempt(r.dump, dict(value), TD), "convert": attempt(lambda: get_converter(TS, TD)(dict(value)))}
+        for what, o in outs.items():
+            ctx.evaluated(("directed-nfkc", tuple(keys), what), nontrivial=True)
+            ctx.count("programs")
+            if o.kind != "ok":
+                cause = getattr(o.exc, "__cause__", None)
+                ctx.violation(f"generation-failed:typeddict-{what}:{type(cause).__name__ if cause is not None else type(o.exc).__name__}:unnormalised-identifier",
+                              f"TypedDict {keys} {what}: {o.exc!r} cause={cause!r:.200}", {"keys": keys})
+            elif o.value != value or list(map(ascii, sorted(o.value))) != list(map(ascii, sorted(value))):
+                ctx.violation(f"{what}-differs:typeddict:unnormalised-identifier", f"TypedDict {keys} {what}: {ascii(o.value)}, expected {ascii(value)}", {"keys": keys})
+
+
+def _keys_of_str_and_int_subclasses(ctx):
+    """Mapped keys are data whatever their class: a member of `class K(str, Enum)`, a str subclass whose repr() is program text, an
+    IntEnum list index - given directly, inside a path, or returned by a mapping function (defect #80)."""
+    import enum  # noqa: PLC0415
+
+    class K(str, enum.Enum):
+        X = "x_key"
+
+    class I(enum.IntEnum):  # noqa: E742
+        ONE = 1
+    M = make_dataclass("MK", [("x", int), ("y", int)])
+    cases = [
+        ("str-enum-key", {"x": K.X}, {"x_key": 1, "y": 2}),
+        ("evil-str-key", {"x": EvilStr("k")}, {"k": 1, "y": 2}),
+        ("path-of-subclass-keys", {"x": ("outer", K.X, I.ONE), "y": ("outer", EvilStr("k"))}, {"outer": {"x_key": [None, 1], "k": 2}}),
+        ("evil-int-index", {"x": ("lst", EvilInt(0)), "y": ("lst", 1)}, {"lst": [1, 2]}),
+        ("function-returning-subclass-key", [("x", lambda shape, fld: EvilStr("fk"))], {"fk": 1, "y": 2}),
+    ]
+    for label, mp, outer in cases:
+        for dt in DEBUG_MODES:
+            r = Retort(debug_trail=dt, recipe=[name_mapping(M, map=mp)])
+            mk_l, mk_d = attempt(r.get_loader, M), attempt(r.get_dumper, M)      # generation compiles and executes source: armed only afterwards
+            with AU.armed():
+                ld = attempt(mk_l.value, copy.deepcopy(outer)) if mk_l.kind == "ok" else mk_l
+                dp = attempt(mk_d.value, M(1, 2)) if mk_d.kind == "ok" else mk_d
+            ctx.evaluated(("directed-subclass-key", label, dt.name), nontrivial=True)
+            ctx.count("programs")
+            info = {"case": label, "mode": dt.name}
+            if AU.EVENTS:
+                ctx.violation(f"audit-canary:{AU.EVENTS[0][0]}:mapped-key-subclass", f"{label}: {AU.EVENTS[:3]}", info)
+                AU.EVENTS.clear()
+            for what, o, want in (("loader", ld, M(1, 2)), ("dumper", dp, outer)):
+                if o.kind != "ok":
+                    cause = getattr(o.exc, "__cause__", None)
+                    ctx.violation(f"generation-failed:{what}:{type(cause).__name__ if cause is not None else type(o.exc).__name__}:mapped-key-subclass", f"{label}: {o.exc!r} cause={cause!r:.200}", info)
+                elif o.value != want:
+                    ctx.violation(f"{what}-differs:mapped-key-subclass", f"{label}: {o.value!r}, expected {want!r}", info)
+
+
+def _null_character_in_function_names(ctx):
+    """'Model and function names with arbitrary characters': the one character compile() refuses in a FILE name (defect #81)."""
+    S = make_dataclass("S", [("a", int)])
+    D = make_dataclass("D", [("a", int)])
+
+    def stub(s):
+        ...
+    stub.__annotations__ = {"s": S, "return": D}     # this module postpones the evaluation of annotations
+    stub.__name__ = "st\0ub"
+    for label, make in (("get_converter(name=)", lambda: get_converter(S, D, name="a\0b")), ("impl_converter(__name__)", lambda: impl_converter(stub))):
+        made = attempt(make)
+        out = attempt(made.value, S(1)) if made.kind == "ok" else made
+        ctx.evaluated(("directed-func-name-nul", label), nontrivial=True)
+        ctx.count("programs")
+        if out.kind != "ok" or out.value != D(1):
+            ctx.violation(f"converter-misbehaves:{type(out.exc).__name__}:func-name:null-character", f"{label}: {out!r:.200}", {})
+
+
+DIRECTED = {"keyword-keys-and-generated-names": _witnesses, "unnormalised-identifiers": _unnormalised_identifiers,
+            "keys-of-str-and-int-subclasses": _keys_of_str_and_int_subclasses, "null-character-in-function-names": _null_character_in_function_names}
 from ..suite_leg import make as _suite_leg  # noqa: E402
 
 DIRECTED["suite-under-monitors"] = _suite_leg("C19")
